@@ -14,6 +14,15 @@ CHECKS = {
  'C04': dict(text='Session validate(x); format(x,o); validate(format(x,o)); format(validate(x),o) for accepted presentations and documented format options; TLC evaluates G0/G1/G2 with the documented normalisations (ISMN, ISAN, ISIL, MEID, isbn convert, imei add_check_digit) written out in ApiFormat.tla.',
              note='Alternative separators are used only when the module\'s own compact() is observed to remove them.',
              tech='TLA+ session machine (Api.tla, ApiFormat.tla) + TLC trace validation', ref='DESIGN.md §4 C04'),
+ 'C05': dict(text='(A) TLC model-checks on the automaton EXTRACTED from each generic algorithm that from every reachable state exactly one check character is accepted (any length), and validates by trace that it is the one the generator returns; (C) for every bound (module, generator) pair TLC validates p1 (generator reproduces the check slice of valid numbers), p2 (every other character of the check alphabet at every check position is rejected, on corpus + synthesised valid numbers) and p3 (payload + generated characters is never rejected by the format\'s own checksum); the positional conventions are constants of Trace_CheckDigit.tla and committed bindings.',
+             note='Bindings (bindings/checkdigit.json) were created once from the unchanged tree and reviewed; unbound generators are listed in the evidence, never counted as passing.',
+             tech='TLC model checking of extracted check-digit automata (ChecksumPA.tla) + TLC trace validation (Trace_CheckDigit.tla, Trace_Checksum.tla)', ref='DESIGN.md §4 C05'),
+ 'C06': dict(text='Each algorithm is a finite automaton (Checksums.tla). TLC exhaustively model-checks the product automaton (two copies, one substitution or one adjacent swap; ChecksumPA.tla, ChecksumGenR2L.tla): reachability covers strings of EVERY length. Done for the mathematical definitions and for the automaton EXTRACTED from the implementation (every state x symbol asked from the real checksum()), for every alphabet; negative instances must be refuted; TLC-simulated strings are replayed into checksum/is_valid/calc_check_digit and validated against the extracted automaton (Trace_Checksum.tla).',
+             note='The unbounded claim is about the extracted automaton; that the code is that automaton is shown by conformance on sampled strings (X1-X3).',
+             tech='TLC exhaustive model checking of product automata over extracted transition tables + trace validation', ref='DESIGN.md §4 C06'),
+ 'C17': dict(text='MC: product automata of the generic algorithms (standard and extracted from the code) and positional weighted-sum automata for ISBN-10/ISSN/EAN (Weighted.tla) prove single-substitution / adjacent-swap detection for all numbers; TRACE: exhaustive neighbourhood (every position x every same-class character, every adjacent pair of different digits) of corpus + synthesised valid numbers of the 30 bound modules recorded from the code; TLC checks that each edit is one the property talks about and that it was rejected (Trace_Typo.tla).',
+             note='Module list and exclusions (with reasons) in bindings/single_error.json.',
+             tech='TLC model checking of product automata + TLC trace validation of exhaustive neighbourhoods', ref='DESIGN.md §4 C17'),
  'C15': dict(text='TLC enumerates (op, position, foreign character class); the driver puts a same-valued foreign digit / look-alike letter at every position of corpus numbers of every module (all Nd/No/Nl code points outside the clean-up table in thorough), plus case-mapping specials over the whole corpus; TLC evaluates S1 (returned value is ASCII) on every accepted session; exclusions are constants of the spec.',
              note='Acceptance itself is not judged, only pass-through of non-ASCII characters.',
              tech='TLA+ contract clause S1 (Api.tla) + TLC trace validation; TLC-generated foreign-character edits', ref='DESIGN.md §4 C15'),
